@@ -111,7 +111,8 @@ Proof.
   unfold sal, final_alignment. pose proof (wc_nat _ _ (wi_cc f WF)) as Hn. pose proof (wi_lalign f WF) as Hl. pose proof (wi_calign f WF) as Hc.
   assert (M : forall x y, pow2 x -> align_ok y -> pow2 (Z.max x y)).
   { intros x y Hx [->|Hy]; [|apply pow2_max; auto]. pose proof (pow2_pos x Hx). rewrite Z.max_l by lia. auto. }
-  rewrite Z.max_assoc. apply M; auto.
+  cbv zeta. destruct (fi_align_fix f && _); [exact Hn|].
+  unfold requested_alignment. rewrite Z.max_assoc. apply M; auto.
 Qed.
 
 Lemma sal_pos : 0 < sal.
@@ -119,7 +120,8 @@ Proof. apply pow2_pos, sal_pow2. Qed.
 
 Lemma natural_divides_sal : (cc_natural cc | sal).
 Proof.
-  apply pow2_divide; [apply WF | apply sal_pow2 |]. unfold sal, final_alignment. fold cc. lia.
+  apply pow2_divide; [apply WF | apply sal_pow2 |]. unfold sal, final_alignment, requested_alignment. fold cc. cbv zeta.
+  destruct (fi_align_fix f && _); lia.
 Qed.
 
 Lemma rs_divides_sal : (rs | sal).
